@@ -615,19 +615,50 @@ func (engine) Body(r *simdrv.Run) {
 	record := func(op *recOp) {
 		ctx := context.Background()
 		attrs := metric.WithAttributes(op.set.kvs()...)
+		// One measurement in eight goes through an instrument object requested again just now (same name,
+		// kind, unit and options: the SDK must hand back an instrument feeding the same aggregators), so
+		// that instrument creation also runs concurrently with measurements, collections and itself.
+		again := sim.Draw(8) == 0
+		if again {
+			r.Fault("instrument-requested-again")
+		}
 		switch w.insts[op.inst].kind {
 		case kCounterI:
-			ci.Add(ctx, op.value(), attrs)
+			h := ci
+			if again {
+				h, _ = meter.Int64Counter("counter_i")
+			}
+			h.Add(ctx, op.value(), attrs)
 		case kCounterF:
-			cf.Add(ctx, float64(op.value()), attrs)
+			h := cf
+			if again {
+				h, _ = meter.Float64Counter("counter_f")
+			}
+			h.Add(ctx, float64(op.value()), attrs)
 		case kUpDownI:
-			ui.Add(ctx, op.value(), attrs)
+			h := ui
+			if again {
+				h, _ = meter.Int64UpDownCounter("updown_i")
+			}
+			h.Add(ctx, op.value(), attrs)
 		case kHistI:
-			hi.Record(ctx, op.value(), attrs)
+			h := hi
+			if again {
+				h, _ = meter.Int64Histogram("hist_i", metric.WithExplicitBucketBoundaries(w.bounds...))
+			}
+			h.Record(ctx, op.value(), attrs)
 		case kGaugeI:
-			gi.Record(ctx, op.gaugeVal, attrs)
+			h := gi
+			if again {
+				h, _ = meter.Int64Gauge("gauge_i")
+			}
+			h.Record(ctx, op.gaugeVal, attrs)
 		case kHistExpF:
-			he.Record(ctx, op.fval, attrs)
+			h := he
+			if again {
+				h, _ = meter.Float64Histogram("hist_exp")
+			}
+			h.Record(ctx, op.fval, attrs)
 		}
 	}
 	for t, plan := range recPlans {
